@@ -132,6 +132,12 @@ static void muggle_merge_sort_recursive(void **ptr, void **arr, size_t left, siz
 
 bool muggle_merge_sort(void **ptr, size_t count, muggle_dsaa_data_cmp cmp)
 {
+	if (count < 2)
+	{
+		// nothing to do; count - 1 below would wrap around for count == 0
+		return true;
+	}
+
 	void **arr = (void**)malloc(sizeof(void*) * count);
 	if (arr == NULL)
 	{
@@ -217,6 +223,12 @@ static void muggle_quick_sort_recursive(void **ptr, size_t left, size_t right, m
 
 bool muggle_quick_sort(void **ptr, size_t count, muggle_dsaa_data_cmp cmp)
 {
+	if (count < 2)
+	{
+		// nothing to do; count - 1 below would wrap around for count == 0
+		return true;
+	}
+
 	muggle_quick_sort_recursive(ptr, 0, count - 1, cmp);
 
 	return true;
